@@ -1,5 +1,5 @@
 #!/bin/bash
 # refac_suite.sh <dir-with-Rk/rN.diff> : runs every behaviour-preserving change on its own scratch copy, 8 at a time.
-d="${1:-/tmp/refac-out}"
-ls $d/*/r*.diff | xargs -P 8 -I{} sh -c 'o=$(LINES_MAX=${LINES_MAX:-2} WIDTH_MAX=${WIDTH_MAX:-260} /verif/tools/rx.sh {} 2>&1); echo "### {}
+d="${1:-/verif/refactorings}"
+ls $d/*.diff | xargs -P 8 -I{} sh -c 'o=$(LINES_MAX=${LINES_MAX:-2} WIDTH_MAX=${WIDTH_MAX:-260} /verif/tools/rx.sh {} 2>&1); echo "### {}
 $o"' 
